@@ -121,26 +121,29 @@ def check_run(schema: Schema, model_dir: str, text: str, uses, evs, rep):
             continue
         if not (lo <= got <= hi):
             raise Violation("requests", f"event {k + 1}: the job requested {sorted(got)}; the query asks for between {sorted(lo)} and {sorted(hi)}", rep)
-    # idiom
+    # idiom - judged from the driver's log, not from the text of the generated code
+    cons = out["consumes"]
+    used_tokens = {t for e in out["events"] for t in e["tokenuse"]}
     if backend == "atlas":
-        n_ret = len(re.findall(r"evtStore\(\)->retrieve\(", src))
-        n_chk = len(re.findall(r"ANA_CHECK\s*\(\s*evtStore\(\)->retrieve\(", src))
-        if n_ret == 0 or n_ret != n_chk:
-            raise Violation("idiom-atlas", f"{n_ret} retrievals of which {n_chk} are status-checked", rep)
+        # status-checked retrieval: an absent bank must fail the event (compare_event above requires STATUS-FAILURE and no rows);
+        # nothing token-like may appear
+        if cons or used_tokens:
+            raise Violation("idiom-atlas", "the ATLAS job used CMS token retrieval", rep)
     elif backend == "cms_aod":
-        if "getByLabel" not in src.split("::analyze(")[1].split("#endif")[-1]:
-            raise Violation("idiom-aod", "collections are not fetched with getByLabel", rep)
+        if cons or used_tokens:
+            raise Violation("idiom-aod", f"the CMS AOD job fetched through tokens ({cons[:2]}), not by label", rep)
     else:
-        cons = out["consumes"]
         if any(c["when"] != "init" for c in cons):
             raise Violation("idiom-miniaod", "a token was initialised while processing events", rep)
         serials = [c["serial"] for c in cons]
-        used = {t for e in out["events"] for t in e["tokenuse"]}
-        if not used <= set(serials):
-            raise Violation("idiom-miniaod", f"tokens {sorted(used - set(serials))} used but never initialised with consumes", rep)
+        if not used_tokens <= set(serials):
+            raise Violation("idiom-miniaod", f"tokens {sorted(used_tokens - set(serials))} used but never initialised with consumes", rep)
         want = {(schema.coll(a).container, b) for a, b in uses}
         have = {(c["type"], c["tag"]) for c in cons}
-        if not have <= want or not {(t, b) for e in out["events"] for (t, b) in e["reqs"]} <= have:
+        requested = {(t, b) for e in out["events"] for (t, b) in e["reqs"]}
+        if requested and not used_tokens:
+            raise Violation("idiom-miniaod", "the miniAOD job fetched collections without tokens", rep)
+        if not have <= want or not requested <= have:
             raise Violation("idiom-miniaod", f"tokens consume {sorted(have)}; the query uses {sorted(want)}", rep)
         if len(cons) != len(set(serials)):
             raise Violation("idiom-miniaod", "a token was initialised twice", rep)
